@@ -7,6 +7,7 @@ import (
 	"bytes"
 	"fmt"
 	"math"
+	"reflect"
 	"strconv"
 
 	simdjson "github.com/minio/simdjson-go"
@@ -301,10 +302,29 @@ func readBack(it *simdjson.Iter, o Op) error {
 		if v, err := it.Int(); err != nil || v != want {
 			return fail("Int", v, err)
 		}
+		// the other numeric accessors convert exactly when the value is in their range (Lookup.tla) and refuse otherwise
+		if v, err := it.Uint(); (want >= 0 && (err != nil || v != uint64(want))) || (want < 0 && err == nil) {
+			return fail("Uint", v, err)
+		}
+		if v, err := it.Float(); err != nil || v != float64(want) {
+			return fail("Float", v, err)
+		}
+		if v, err := it.StringCvt(); err != nil || v != strconv.FormatInt(want, 10) {
+			return fail("StringCvt", v, err)
+		}
 	case "uint":
 		want, _ := strconv.ParseUint(string(o.X.Bytes()), 10, 64)
 		if v, err := it.Uint(); err != nil || v != want {
 			return fail("Uint", v, err)
+		}
+		if v, err := it.Int(); (want <= math.MaxInt64 && (err != nil || v != int64(want))) || (want > math.MaxInt64 && err == nil) {
+			return fail("Int", v, err)
+		}
+		if v, err := it.Float(); err != nil || v != float64(want) {
+			return fail("Float", v, err)
+		}
+		if v, err := it.StringCvt(); err != nil || v != strconv.FormatUint(want, 10) {
+			return fail("StringCvt", v, err)
 		}
 	case "float":
 		want, _ := strconv.ParseFloat(string(o.X.Bytes()), 64)
@@ -420,6 +440,13 @@ func Apply(pj *simdjson.ParsedJson, o Op, readVal func(it *simdjson.Iter) (abs.V
 		if serr == nil {
 			if rerr := readBack(it, o); rerr != nil {
 				return false, nil, rerr
+			}
+		} else if fresh, nerr := Nav(pj, o.Path); nerr == nil {
+			// "returns an error and changes nothing": the iterator the refused call was made on still reads what a fresh one reads
+			a, aerr := it.Interface()
+			b, berr := fresh.Interface()
+			if (aerr == nil) != (berr == nil) || (aerr == nil && !reflect.DeepEqual(a, b)) || it.Type() != fresh.Type() {
+				return true, nil, fmt.Errorf("after the refused %s the same iterator reads %v (type %v, err %v), a fresh one %v (type %v, err %v)", o, a, it.Type(), aerr, b, fresh.Type(), berr)
 			}
 		}
 		return serr != nil, nil, nil
